@@ -11,6 +11,9 @@ pub mod c08;
 pub mod c09;
 pub mod c10;
 pub mod c11;
+pub mod c12;
+pub mod c13;
+pub mod c14;
 pub mod c15;
 pub mod c16;
 pub mod c17;
@@ -30,6 +33,9 @@ pub fn registry() -> Vec<Box<dyn DynProp>> {
         Box::new(Erased::<c09::C09>::new()),
         Box::new(Erased::<c10::C10>::new()),
         Box::new(Erased::<c11::C11>::new()),
+        Box::new(Erased::<c12::C12>::new()),
+        Box::new(Erased::<c13::C13>::new()),
+        Box::new(Erased::<c14::C14>::new()),
         Box::new(Erased::<c15::C15>::new()),
         Box::new(Erased::<c16::C16>::new()),
         Box::new(Erased::<c17::C17>::new()),
